@@ -1126,8 +1126,11 @@ def sibling_r0(chk, rng, quick):
         for r0, A, Q in mats[1:]:
             r00, A0, Q0 = mats[0]
             want = Q0 * (r0 / r00) ** (-5. / 3)
-            ok = A.shape == A0.shape and numpy.all(numpy.abs(A - A0) <= 1e-7 * max(1.0, float(numpy.max(numpy.abs(A0))))) and \
-                numpy.all(numpy.abs(Q - want) <= 1e-7 * float(numpy.max(numpy.abs(want))) + 1e-300)
+            # tolerances: A = Cxz·Czz⁻¹ and B·Bᵀ = Cxx − A·Czx are computed from covariances that are scaled by a factor which is not a power
+            # of two, so they agree to eps·cond(Czz) only (observed up to 1.0e-7 of the largest entry of B·Bᵀ at L0/pixel ≈ 1400 in a thorough
+            # run — the first version of this clause demanded 1e-7 and alarmed on the unchanged tree); a memo serving another r0's B is off by O(1)
+            ok = A.shape == A0.shape and numpy.all(numpy.abs(A - A0) <= 1e-5 * max(1.0, float(numpy.max(numpy.abs(A0))))) and \
+                numpy.all(numpy.abs(Q - want) <= 1e-3 * float(numpy.max(numpy.abs(want))) + 1e-300)
             if not ok:
                 chk.fail("sibling-r0:%s" % cfg["variant"], "%s screens of one geometry (nx=%r, pixel_scale=%r, L0=%r) built one after the other with "
                          "r0 = %r and then r0 = %r: A must be equal and B·Bᵀ scale by (r0'/r0)^(-5/3); A differs by %.3g, B·Bᵀ is off by %.3g of its "
